@@ -71,6 +71,8 @@ type wStop struct {
 type wPause struct {
 	Step  int `json:"step"`
 	ForMs int `json:"for_ms"`
+	// AgainAfterMs > 0: a second pause of the same length begins that long after the first one ended.
+	AgainAfterMs int `json:"again_after_ms,omitempty"`
 }
 
 // wMitm replaces one field of the Line-th protocol line of a direction (0-based, counting lines that
@@ -510,6 +512,8 @@ type worldResult struct {
 	SrvDoneAt    time.Duration
 	CliDone      bool
 	StopAt       time.Duration
+	Pauses       []pauseRec
+	KeepAlives   []time.Duration
 	StepsAtDone  int    // scheduler step at which the later of the two sides was done
 	ClientSent   []byte // everything the client wrote towards the server (in-band and tunnel)
 	ServerSent   []byte
@@ -951,6 +955,32 @@ func decodeLines(stream []byte, typ string) []string {
 
 func (w *world) result(s *vs.Sched) *worldResult {
 	r := &worldResult{Sched: s, SrvDone: w.srvDone, SrvDoneAt: w.srvDoneAt, CliDone: w.cliDone, CliDoneAt: w.cliDoneAt, StopAt: w.stopAt, StopHit: w.stopHit}
+	for _, pr := range w.pauseLog {
+		if pr.End == 0 {
+			pr.End = vs.Elapsed() // the transfer ended before the pause did
+			pr.C2SLenEnd = pr.C2SLen
+		}
+		if pr.t != nil {
+			pr.BufAfter = pr.t.bufferSize.Load()
+		}
+		r.Pauses = append(r.Pauses, pr)
+	}
+	// times at which the client wrote a keep-alive line
+	stampsOf := func(p *vs.Pipe) {
+		for _, st := range p.Log {
+			b := p.Written[st.Off : st.Off+st.Len]
+			if bytes.HasPrefix(b, []byte("#DATA:=")) || bytes.HasPrefix(b, []byte("#SUCC:=")) {
+				r.KeepAlives = append(r.KeepAlives, st.At)
+			}
+		}
+	}
+	stampsOf(w.c2s[0])
+	for _, c := range vs.NetConns() {
+		if c.Name == "client.client" {
+			stampsOf(c.OutPipe())
+		}
+	}
+	sort.Slice(r.KeepAlives, func(i, j int) bool { return r.KeepAlives[i] < r.KeepAlives[j] })
 	r.StepsAtDone = w.srvDoneStep
 	if w.cliDoneStep > r.StepsAtDone {
 		r.StepsAtDone = w.cliDoneStep
@@ -1035,13 +1065,14 @@ func (w *world) installEvents() {
 	}
 	for i := range w.p.Pauses {
 		pa := w.p.Pauses[i]
-		evs = append(evs, ev{pa.Step, func() {
+		var begin func(again bool)
+		begin = func(again bool) {
 			t := w.filter.transfer.Load()
 			if t == nil {
 				return
 			}
 			w.pauseHits++
-			w.pauseLog = append(w.pauseLog, pauseRec{Begin: vs.Elapsed(), C2SLen: w.clientSentLen()})
+			w.pauseLog = append(w.pauseLog, pauseRec{Begin: vs.Elapsed(), C2SLen: w.clientSentLen(), t: t})
 			idx := len(w.pauseLog) - 1
 			t.pauseTransferringFiles()
 			vs.AddTimer(time.Duration(pa.ForMs)*time.Millisecond, func() {
@@ -1052,10 +1083,14 @@ func (w *world) installEvents() {
 					if cur := w.filter.transfer.Load(); cur == t {
 						w.pauseLog[idx].BufBefore = t.bufferSize.Load()
 						t.resumeTransferringFiles()
+						if again && pa.AgainAfterMs > 0 {
+							vs.AddTimer(time.Duration(pa.AgainAfterMs)*time.Millisecond, func() { vs.Peek(func() { begin(false) }) })
+						}
 					}
 				})
 			})
-		}})
+		}
+		evs = append(evs, ev{pa.Step, func() { begin(true) }})
 	}
 	sort.SliceStable(evs, func(i, j int) bool { return evs[i].step < evs[j].step })
 	for _, e := range evs {
@@ -1075,9 +1110,10 @@ func (w *world) clientSentLen() int {
 }
 
 type pauseRec struct {
-	Begin, End        time.Duration
-	C2SLen, C2SLenEnd int
-	BufBefore         int64
+	Begin, End          time.Duration
+	C2SLen, C2SLenEnd   int
+	BufBefore, BufAfter int64
+	t                   *trzszTransfer
 }
 
 // probe checks transparency after a transfer: text printed by the remote shell must reach the
